@@ -20,7 +20,8 @@ type Variant struct {
 	New  string `json:"new"`
 	// further edits in the same or other files
 	More   []VariantEdit `json:"more,omitempty"`
-	Expect string        `json:"expect"` // "report" | "silent"
+	Patch  string        `json:"patch,omitempty"` // corpus entry: path of a unified diff below the verif directory
+	Expect string        `json:"expect"`          // "report" | "silent"
 	Rule   string        `json:"rule"`   // rule expected to report (prefix match), for expect=report
 	Note   string        `json:"note"`
 }
@@ -55,6 +56,7 @@ func runVariants(p *Property, repo, vdir string, base *Ctx) []map[string]any {
 		fmt.Printf("SELFTEST-ERROR %v\n", err)
 		return nil
 	}
+	vs = append(vs, corpusVariants(vdir, p.ID)...)
 	if len(vs) == 0 {
 		return nil
 	}
@@ -81,6 +83,17 @@ func runVariants(p *Property, repo, vdir string, base *Ctx) []map[string]any {
 		edits := append([]VariantEdit{{v.File, v.Old, v.New}}, v.More...)
 		files := map[string]string{}
 		applicable := true
+		if v.Patch != "" {
+			edits = nil
+			pb, err := os.ReadFile(filepath.Join(vdir, v.Patch))
+			if err == nil {
+				files, err = applyUnifiedDiff(repo, string(pb))
+			}
+			if err != nil {
+				res["outcome"] = "not-applicable (patch does not apply to the current tree: " + err.Error() + ")"
+				continue
+			}
+		}
 		for _, e := range edits {
 			cur, ok := files[e.File]
 			if !ok {
@@ -158,6 +171,12 @@ func runVariants(p *Property, repo, vdir string, base *Ctx) []map[string]any {
 				} else {
 					res["outcome"] = "FAIL: behaviour-preserving variant reported"
 				}
+			case "known-alarm":
+				if len(newBad) == 0 {
+					res["outcome"] = "pass: silent (listed as a known false alarm, no longer one)"
+				} else {
+					res["outcome"] = "known limit: behaviour-preserving variant reported (" + v.Note + ")"
+				}
 			}
 		}()
 	}
@@ -174,4 +193,42 @@ func runVariants(p *Property, repo, vdir string, base *Ctx) []map[string]any {
 		fmt.Printf("SELFTEST: %d of %d variants not handled as expected (this measures the checker; the verdict for /repo does not depend on it)\n", nFail, len(results))
 	}
 	return results
+}
+
+// corpusVariants: the committed corpus of whole-patch variants — the breaking changes produced
+// by independent sub-agents for this property (seeded/<id>-k/patch.diff: must be reported) and
+// every behaviour-preserving refactoring (refactors/*/patch.diff: must stay silent).
+func corpusVariants(vdir, prop string) []Variant {
+	var out []Variant
+	seeds, _ := filepath.Glob(filepath.Join(vdir, "seeded", prop+"-*", "patch.diff"))
+	sort.Strings(seeds)
+	for _, s := range seeds {
+		rel, _ := filepath.Rel(vdir, s)
+		out = append(out, Variant{ID: "seeded/" + filepath.Base(filepath.Dir(s)), Patch: rel, Expect: "report", Rule: prop + "/"})
+	}
+	refs, _ := filepath.Glob(filepath.Join(vdir, "refactors", "*", "patch.diff"))
+	sort.Strings(refs)
+	known := knownRefactorAlarms(vdir)
+	for _, s := range refs {
+		rel, _ := filepath.Rel(vdir, s)
+		name := filepath.Base(filepath.Dir(s))
+		v := Variant{ID: "refactors/" + name, Patch: rel, Expect: "silent"}
+		if why, ok := known[name+"/"+prop]; ok {
+			v.Expect = "known-alarm"
+			v.Note = why
+		}
+		out = append(out, v)
+	}
+	return out
+}
+
+// knownRefactorAlarms: refactors/KNOWN_ALARMS.json lists the behaviour-preserving patches a
+// property's rules are known to report (limits stated in DESIGN.md §9), keyed "<patch>/<property>".
+func knownRefactorAlarms(vdir string) map[string]string {
+	m := map[string]string{}
+	b, err := os.ReadFile(filepath.Join(vdir, "refactors", "KNOWN_ALARMS.json"))
+	if err == nil {
+		json.Unmarshal(b, &m)
+	}
+	return m
 }
